@@ -24,6 +24,8 @@ the schema-level half of the property is proved for it: `compile_ok_iff_static` 
 cycle among its nodes); the node-level cycle is read back at the level of the text in `compile_sane_src`
 (no shape of a name pattern is the shape of one of its own signers ⇒ accepted) and
 `mergedSigner_counterexample` (an acyclic rule-level signing graph is NOT enough); see `compile_sane_partial`.
+The exact criterion (equal merge-key paths) is in `Props/C13Keys.lean`, `Checker.load` on every byte string in
+`Props/C13Load.lean`.
 -/
 namespace Ndn.C13
 open Ndn Ndn.Lvs
@@ -331,10 +333,14 @@ theorem mergedSigner_selfSigning : ShapeSelfSigning ⟨renameTemps mergedSigner.
     (`compile_sane_src`, `static_sane_src`; "name pattern" = expansion of a definition, `SrcSem.lean`); and the
     honest negative: an acyclic *rule-level* signing graph does not suffice, because two rules with the same name
     pattern share one node (`mergedSigner_counterexample`: `#a: "k"/x <= #b`, `#b: "k"/x` compiles and the loader
-    refuses the result; there the name pattern `"k"/x` IS its own signer).  Not proved: the exact criterion (two
-    name patterns share a node iff their merge-key paths are equal — same literals, same pattern numbers with the same
-    constraint sets at first occurrences; the shape criterion is coarser, so some accepted schemas are not covered),
-    and model = code, which rest on the correspondence run and the schema-level oracle.
+    refuses the result; there the name pattern `"k"/x` IS its own signer).  The exact criterion is proved in
+    `Props/C13Keys.lean`: two chains end at one node iff their merge-key paths are equal, so the loader refuses the compiled
+    model iff the key paths of the chains sign each other in a cycle (`compile_accepted_iff_keys`); read at the level of the
+    text this is necessary for every schema (`compile_sane_keys`, finer than the shape criterion) and exact for every schema
+    that writes no temporary pattern (`compile_accepted_iff_src`).  Not proved: an exact criterion in terms of the text alone
+    for schemas WITH temporary patterns (two chains share a temporary pattern only when both inline the same chain of the
+    same rule - the number the compiler gave to that occurrence - which the source semantics has no name for), and
+    model = code, which rests on the correspondence run and the schema-level oracle.
     Proved here, for *any* model: the loader accepts it exactly when it is sane and `top_order` finds no
     signing loop. -/
 theorem compile_sane_partial (m : Model) : sanityCheck m = .ok () ↔ Sane m ∧ signOK m = true := by
